@@ -1,5 +1,22 @@
 From Coq Require Import List Bool Ascii Arith NArith.
-From TxVerif Require Import Lib.Bytes Lib.Verdict Spec.Ctl Spec.CtlOracle Model.CtlProto.
+From TxVerif Require Import Lib.Bytes Lib.Verdict Spec.Ctl Spec.CtlOracle Model.CtlProto Spec.C03Cancel Model.CtlCancel.
 From TxVerif Require Export Check.Ctl.
-Definition case := ccase.
-Definition check (k : case) : verdict := check_with j_c03 k.
+Import ListNotations.
+
+(* two families of cases: byte-level sessions cut by a loss (shared with C01/C02), and command-level
+   histories in which the caller cancels commands (Spec/C03Cancel.v) *)
+Inductive case :=
+| KSess (k : ccase)
+| KCancel (ops : list qop) (obs : list (list qev)).
+
+Definition qtr_eqb (a b : list (list qev)) : bool := list_eqb (list_eqb qev_eqb) a b.
+
+Definition check (k : case) : verdict :=
+  match k with
+  | KSess c => check_with j_c03 c
+  | KCancel ops obs =>
+      match q_oracle ops obs with
+      | None => VSkip
+      | Some ok => mk_verdict (option_map (fun m => qtr_eqb m obs) (q_run ops)) ok
+      end
+  end.
